@@ -91,8 +91,8 @@ void apply_chunking(const Input& in, bool from_buffer, bool shipped, std::string
 // the bytes"; its quantifier covers valid and truncated files). Not strict (C07, corrupted files): a corrupt
 // compressed file may be rejected by the decompressor or - when garbage pieces reach the parser first - by the
 // parser; the property only demands that the failure is reported.
-void compare_outcomes(const char* prop, const char* oracle, const Input& in, bool from_buffer, const Outcome& ref, const Outcome& run, bool strict_exception = true, const std::string& zlib_label = std::string{}) {
-    const std::string kind = io_kind(in, from_buffer);
+void compare_outcomes(const char* prop, const char* oracle, const Input& in, bool from_buffer, const Outcome& ref, const Outcome& run, bool strict_exception = true, const std::string& zlib_label = std::string{}, const std::string& kind_override = std::string{}) {
+    const std::string kind = kind_override.empty() ? io_kind(in, from_buffer) : kind_override;
     const std::string pre = std::string{prop} + "." + oracle + "/" + kind + "/";
     // only where the reference outcome is a gzip error does zlib's silence matter
     const std::string zl = (ref.threw && ref.exc_type.find("gzip_error") != std::string::npos) ? zlib_label : std::string{};
@@ -540,6 +540,7 @@ int main(int argc, char** argv) {
         else if (info.mode == "c05convert") { run_c05_convert(); }
         else if (info.mode == "c05multi") { run_c05_multi(); }
         else if (info.mode == "c07") { run_c07(); }
+        else if (info.mode == "c07url") { run_c07(true); }
         else if (info.mode == "c07enum") { run_c07_enum(); }
         else if (info.mode == "c03") { run_c03(); }
         else { sim::report("harness-error", "harness/unknown-mode", info.mode); }
